@@ -261,9 +261,11 @@ def check_case(case):
         km = common.xyz_keymap(fed, base)
         diffs = observe.compare_records(ra, rb, tol=1e-9, keymap=km)
         v = [{"clause": "keep-protons-round-trip", "detail": common.fmt_diffs(diffs)}] if diffs else []
-        if case.get("all_hydrogens"):
-            for x in v:
-                x["sig"] = incomplete_sig(base, [d["key"] for d in diffs]) or coo_arg_sig(ra, rb, diffs, km)
+        for x in v:
+            # open findings: F16 (only when the hydrogens of a --protonate-all run are fed back) and F19 (the bond list
+            # of an ARG nitrogen starts with a hydrogen once hydrogens are read from the file)
+            x["sig"] = (incomplete_sig(base, [d["key"] for d in diffs]) if case.get("all_hydrogens") else None) \
+                or coo_arg_sig(ra, rb, diffs, km)
         stats = common.interaction_stats(ra)
         return v, {"nontrivial": nh > 0 and stats["with_dets"] >= 1,
                    "labels": list(case.get("labels", [])) + ["keep-protons" + ("-all" if case.get("all_hydrogens")
